@@ -42,6 +42,8 @@ pub struct ServerParams {
     pub license_kind: u8,
     pub license_blob: Vec<u8>,
     pub license_sec_extra: u16,
+    /// LICENSE_PREAMBLE flags: version 2.0 / 3.0 in the low nibble, EXTENDED_ERROR_MSG_SUPPORTED (0x80) on top
+    pub license_flags: u8,
     pub share_id: u32,
     pub source_desc: Vec<u8>,
     pub caps: Vec<(u16, Vec<u8>)>,
@@ -81,6 +83,7 @@ impl ServerParams {
             license_kind: 1,
             license_blob: vec![],
             license_sec_extra: 0,
+            license_flags: 0x03,
             share_id: 0x000103ea,
             source_desc: b"RDP\0".to_vec(),
             caps: default_caps(),
@@ -141,6 +144,7 @@ impl ServerParams {
         let bl = match ctx.choose("blob_len_c", 3) { 0 => 0, 1 => ctx.choose("blob_len", 16) as usize, _ => ctx.choose("blob_len", 600) as usize };
         p.license_blob = ctx.bytes("blob", bl.min(8)).into_iter().cycle().take(bl).collect();
         p.license_sec_extra = if ctx.chance("lic_0200", 1, 3) { 0x0200 } else { 0 };
+        p.license_flags = *ctx.pick("lic_preamble_flags", &[0x03u8, 0x03, 0x03, 0x83, 0x83, 0x02, 0x82]);
         p.share_id = match ctx.choose("share_id_c", 4) { 0 => 0x000103ea, 1 => 0, 2 => 0xffffffff, _ => ctx.choose("share_id", 1 << 32) as u32 };
         p.source_desc = match ctx.choose("src_desc", 4) { 0 => b"RDP\0".to_vec(), 1 => vec![], 2 => b"MSTSC\0".to_vec(), _ => { let n = ctx.choose("src_len", 40) as usize; vec![b'x'; n] } };
         p.caps = generate_caps(ctx);
@@ -395,15 +399,15 @@ pub fn license(p: &ServerParams) -> Wr {
                 body.u16le("upg.blobType", 0x0009).u16le("upg.blobLen", p.license_blob.len() as u16).bytes("upg.blob", &p.license_blob).bytes("upg.mac", &[0u8; 16]);
             }
         }
-        w.u8("lic.bMsgType", typ).u8("lic.flags", 0x03).u16le("lic.wMsgSize", (4 + body.len()) as u16);
+        w.u8("lic.bMsgType", typ).u8("lic.flags", p.license_flags).u16le("lic.wMsgSize", (4 + body.len()) as u16);
         w.append(&body);
     } else if p.license_kind == 1 {
         let size = 4 + 4 + 4 + 4 + p.license_blob.len();
-        w.u8("lic.bMsgType", 0xff).u8("lic.flags", 0x03).u16le("lic.wMsgSize", size as u16);
+        w.u8("lic.bMsgType", 0xff).u8("lic.flags", p.license_flags).u16le("lic.wMsgSize", size as u16);
         w.u32le("lic.dwErrorCode", p.license_error_code).u32le("lic.dwStateTransition", p.license_state_transition).u16le("lic.wBlobType", 4).u16le("lic.wBlobLen", p.license_blob.len() as u16).bytes("lic.blob", &p.license_blob);
     } else {
         let size = 4 + p.license_blob.len();
-        w.u8("lic.bMsgType", 0x03).u8("lic.flags", 0x03).u16le("lic.wMsgSize", size as u16).bytes("lic.body", &p.license_blob);
+        w.u8("lic.bMsgType", 0x03).u8("lic.flags", p.license_flags).u16le("lic.wMsgSize", size as u16).bytes("lic.body", &p.license_blob);
     }
     send_data_indication(p, &w)
 }
